@@ -109,14 +109,22 @@ def run_task(task, repo=None, max_paths=MAX_PATHS):
         rec["status"] = "undecided"
         rec["reason"] = "zero obligations generated (vacuity guard)"
     solver_s = 0.0
+    n_timeouts = 0
     for ob in obs:
         if rec["status"] == "crash":
             break
-        try:
-            discharge(ob, ctx.axioms, task.timeout_ms)
-        except Exception:
-            ob.status = "unknown"
-            ob.reason = traceback.format_exc()[-500:]
+        if n_timeouts >= 5:
+            # keep a changed tree from costing minutes of solver time: after repeated timeouts the
+            # remaining obligations of this task are left undischarged (reported as such)
+            ob.status, ob.backend, ob.reason, ob.time = "unknown", "z3", "not attempted: 5 earlier obligations of this task timed out", 0.0
+        else:
+            try:
+                discharge(ob, ctx.axioms, task.timeout_ms)
+            except Exception:
+                ob.status = "unknown"
+                ob.reason = traceback.format_exc()[-500:]
+            if ob.status == "unknown" and ob.time > 0.8 * task.timeout_ms / 1000:
+                n_timeouts += 1
         solver_s += ob.time
         o = {"name": ob.name, "status": ob.status, "backend": ob.backend, "time_s": round(ob.time, 4), "path": ob.meta.get("path", "")}
         if ob.meta.get("lineno"):
